@@ -322,8 +322,16 @@ class IMAPServer:
                 environment="devel" if self.debug else "production",
             )
 
+        # NOTE: The stream reader refuses lines longer than its `limit`
+        #       (64KiB unless told otherwise). A command line may be as long
+        #       as a command may be.
+        #
         self.asyncio_server = await asyncio.start_server(
-            self.new_client, self.address, self.port, ssl=self.ssl_context
+            self.new_client,
+            self.address,
+            self.port,
+            ssl=self.ssl_context,
+            limit=MAX_INPUT_SIZE,
         )
         # addrs = ", ".join(
         #     str(sock.getsockname()) for sock in self.asyncio_server.sockets
@@ -514,7 +522,32 @@ class IMAPClient:
                 # Read until b'\r\n'. Trim off the '\r\n'. If the message is
                 # not of 0 length then append it to our incremental buffer.
                 #
-                msg = await self.reader.readuntil(self.LINE_TERMINATOR)
+                try:
+                    msg = await self.reader.readuntil(self.LINE_TERMINATOR)
+                except asyncio.LimitOverrunError as exc:
+                    # A line that is longer than any command may be. Refuse
+                    # the command and skip to the end of that line so that
+                    # what comes after it is read as the next command.
+                    #
+                    logger.warning(
+                        "%s: command line exceeds maximum of %d, rejecting",
+                        self.name,
+                        MAX_INPUT_SIZE,
+                    )
+                    await self.push(
+                        b"* BAD command exceeds maximum allowed size\r\n"
+                    )
+                    self.ibuffer = []
+                    self.ibuffer_size = 0
+                    consumed = exc.consumed
+                    while True:
+                        await self.reader.readexactly(consumed)
+                        try:
+                            await self.reader.readuntil(self.LINE_TERMINATOR)
+                            break
+                        except asyncio.LimitOverrunError as more:
+                            consumed = more.consumed
+                    continue
                 msg = msg.rstrip()
                 if msg:
                     self.ibuffer.append(msg)
